@@ -50,6 +50,20 @@ try:
         tol = 1e-4 if rp['method'] == 'perturbative' else 2e-2
         if np.max(np.abs(got - want)) > tol:
             wit.append({'key': f'low-power:{L}km:{rp}', 'problems': [f'span loss {np.round(got, 4).tolist()} dB, budget {want:.4f} dB']})
+    # 1a. a lumped loss can only sit strictly inside the fibre (one at an end would be budgeted by Fiber.loss but never applied)
+    from gnpy.core.exceptions import NetworkTopologyError
+    for pos, ok in ((0.0, False), (80.0, False), (80.5, False), (-1.0, False), (1e-6, True), (79.999, True), (40.0, True)):
+        cases += 1
+        try:
+            got = run(Fiber, 80.0, dict(flag=False), 1e-9, lumped=[{'position': pos, 'loss': 1.5}])
+            if not ok:
+                wit.append({'key': f'lumped-loss-position-accepted:{pos}', 'problems': [f'a lumped loss at {pos} km of an 80 km fibre was accepted; span loss '
+                                                                                      f'{np.round(got, 3).tolist()} dB, Fiber.loss budget {1.0 + 0.3 + 80 * 0.21 + 1.5 + 0.4:.3f} dB']})
+            elif np.max(np.abs(got - (1.0 + 0.3 + 80 * 0.21 + 1.5 + 0.4))) > 1e-4:
+                wit.append({'key': f'lumped-loss-inside:{pos}', 'problems': [f'span loss {np.round(got, 4).tolist()} dB']})
+        except NetworkTopologyError:
+            if ok:
+                wit.append({'key': f'lumped-loss-position-rejected:{pos}', 'problems': ['a position strictly inside the fibre was rejected']})
     # 1b. per-frequency loss coefficient: every channel is attenuated by the coefficient interpolated at its own frequency
     table = {'value': [0.18, 0.20, 0.25], 'frequency': [191.0e12, 193.5e12, 196.5e12]}
     for L, rp in itertools.product([50.0, 83.7], [dict(flag=False), pert[0], pert[4]]):
